@@ -42,7 +42,7 @@ DEFAULTS = {"log_level": "error", "network": "mainnet", "rpc_url": "", "rpc_user
 ALPHA = {"log_level": ["info", "debug", "warning", "error"], "network": ["testnet", "regtest", "mainnet"],
          "input_format": ["raw", "bin", "hex"], "output_format": ["raw", "bin", "hex"],
          "rpc_url": ["http://a:1", "http://b:2", "http://c:3"], "rpc_user": ["alice", "bob", "carol"],
-         "rpc_password": ["pw1", "pw2", "pw3"], "rpc_datadir": ["/d/one", "/d/two", "/d/three"]}
+         "rpc_password": ["pw1", "pw2", "pw3"], "rpc_datadir": ["/d/one", "/d/two", "/d/thr\u00e9\u00fc"]}
 
 
 class Abort(Exception):
@@ -119,12 +119,18 @@ def run_main(argv, stdin=b"", files=None, mode="config", toml_support=True):
     os.makedirs(cdir)
     files = files or {}
     if files.get("toml") is not None:
-        with open(os.path.join(cdir, "config.toml"), "w") as f:
+        with open(os.path.join(cdir, "config.toml"), "w", encoding="utf-8") as f:
             for k, v in files["toml"].items():
-                f.write(f"{k} = {json.dumps(v)}\n")
+                f.write(f"{k} = {json.dumps(v, ensure_ascii=False)}\n")
     if files.get("json") is not None:
-        with open(os.path.join(cdir, "config.json"), "w") as f:
-            json.dump(files["json"], f)
+        with open(os.path.join(cdir, "config.json"), "w", encoding="utf-8") as f:
+            json.dump(files["json"], f, ensure_ascii=False)
+    # file times are an environment answer the harness owns: every configuration file (and the directory) carries the same
+    # fixed modification time, so two runs whose files differ only in content of equal size are indistinguishable by stat()
+    for nm in ("config.toml", "config.json", ""):
+        p_ = os.path.join(cdir, nm)
+        if os.path.exists(p_):
+            os.utime(p_, ns=(1_600_000_000_000_000_000, 1_600_000_000_000_000_000))
     obs = {"config": None, "rpc": [], "ret": None, "stdout": b"", "exit": None, "level": None}
     created = []
     RealConfig = bm.Config
